@@ -959,7 +959,11 @@ class Parser:
         if self.accept('number'):
             return self.create_node(NumberNode, t)
         if self.accept_any(ALL_STRINGS):
-            return self.create_node(StringNode, t)
+            try:
+                return self.create_node(StringNode, t)
+            except UnicodeDecodeError as e:
+                # e.g. '\N{no such name}' or '\U99999999'
+                raise ParseException(f'Invalid escape sequence in string: {e.reason}', self.getline(), t.lineno, t.colno)
         return EmptyNode(self.current.lineno, self.current.colno, self.current.filename)
 
     def key_values(self) -> ArgumentNode:
